@@ -19,7 +19,7 @@ RULE = ("Random nested mount tables (depth <=3, 1-4 entries per level, prefixes 
         "trailing slash (exhaustive list, sampled per table; the full list for every 40th table) x initial root paths {'', /root, /r/é}; host tables "
         "of overlapping regex patterns x Host values (exact, prefix, suffix, with port, empty, absent, upper-case). Both interfaces. Non-trivial = "
         "table with >=2 entries of which one prefix is a string prefix of another, or nesting depth >=2, or a 404 outcome; distinct = (table, path, root).")
-RULE += " Also: Host values spelling out the default port and in other letter case, non-UTF-8 path bytes behind ASCII prefixes (WSGI), root path equal to one of the table's prefixes; one Subpaths / Hosts object per table serves the whole sequence."
+RULE += " Also: tables that list ONE application object under several prefixes / host patterns (the entry taken is read off the root+path the leaf sees, resp. the owning application); Host values spelling out the default port and in other letter case, non-UTF-8 path bytes behind ASCII prefixes (WSGI), root path equal to one of the table's prefixes; one Subpaths / Hosts object per table serves the whole sequence."
 ASSUMPTIONS = [
     "on WSGI SCRIPT_NAME / PATH_INFO are the Latin-1 view of the bytes; the model is applied to the UTF-8 text they stand for (as on ASGI)",
     "'leaves the request untouched' is judged per mount level: at a 404 the request must equal what the innermost non-matching mount received",
@@ -94,10 +94,20 @@ def snap(d, skip):
     return {k: (v if not isinstance(v, (dict, list)) else repr(v)) for k, v in d.items() if k not in skip}
 
 
-def build_mount_apps(table):
-    """one Subpaths tree per interface, built once per table and reused for every path (mount tables are long-lived objects)"""
+def build_mount_apps(table, shared=False):
+    """one Subpaths tree per interface, built once per table and reused for every path (mount tables are long-lived objects).
+    shared=True: every leaf of the table is the SAME application object (one app mounted under several prefixes); the leaf
+    then identifies the entry taken by the root/path it receives."""
     from baize import asgi, wsgi
     hit = {}
+    cache = {}
+
+    def one(rec):
+        def shared_rec(ids):
+            if rec not in cache:
+                cache[rec] = rec(None)
+            return cache[rec]
+        return shared_rec if shared else rec
 
     def wrec(ids):
         def app(environ, start_response):
@@ -112,7 +122,7 @@ def build_mount_apps(table):
             await send({"type": "http.response.start", "status": 200, "headers": []})
             await send({"type": "http.response.body", "body": b"leaf"})
         return app
-    return {"wsgi": build(wsgi, table, wrec), "asgi": build(asgi, table, arec), "hit": hit}
+    return {"wsgi": build(wsgi, table, one(wrec)), "asgi": build(asgi, table, one(arec)), "hit": hit, "shared": shared}
 
 
 def run_mount(ctx, table, root, path, apps=None):
@@ -147,6 +157,8 @@ def run_mount(ctx, table, root, path, apps=None):
             status, exc = res.status, res.exc
         ctx.mon(f"{iface}-mount")
         case = {"table": table, "root": root, "path": path, "iface": iface}
+        if apps.get("shared"):
+            case["shared"] = True
         if exc is not None:
             ctx.violation(f"exception|{type(exc).__name__}", case, repr(exc))
             continue
@@ -159,7 +171,7 @@ def run_mount(ctx, table, root, path, apps=None):
                 nt = True
                 continue
             gids, groot, gpath = hit["leaf"]
-            if gids != ids:
+            if gids is not None and gids != ids:
                 ctx.violation("wrong-entry-selected", case, f"model {ids}, real {gids}")
                 continue
             ctx.mon("root+path-conserved")
@@ -193,9 +205,12 @@ HOSTS = ["example.com:80", "example.com:443", "example.com", "www.example.com", 
          "example", "static.example.com", "a.b.example.com", "example.com ", " example.com", "ex", "com", "api.example.com.evil.org", "caf\xe9.example.com", "\xfcber.example.com", "a" * 290 + ".example.com", "x" * 254 + ".com", "example.com.", "www.example.com.", "example.com..", ".example.com"]
 
 
-def build_host_apps(patterns):
+def build_host_apps(patterns, owners=None):
+    """owners[i] = number of the application serving pattern i (default: one application per pattern); a table may list the
+    same application object under several patterns"""
     from baize import asgi, wsgi
     hit = {}
+    owners = list(owners) if owners is not None else list(range(len(patterns)))
 
     def wrec(i):
         def app(environ, start_response):
@@ -210,7 +225,9 @@ def build_host_apps(patterns):
             await send({"type": "http.response.start", "status": 200, "headers": []})
             await send({"type": "http.response.body", "body": b"h"})
         return app
-    return {"wsgi": wsgi.Hosts(*[(p, wrec(i)) for i, p in enumerate(patterns)]), "asgi": asgi.Hosts(*[(p, arec(i)) for i, p in enumerate(patterns)]), "hit": hit}
+    wapps, aapps = {o: wrec(o) for o in set(owners)}, {o: arec(o) for o in set(owners)}
+    return {"wsgi": wsgi.Hosts(*[(p, wapps[owners[i]]) for i, p in enumerate(patterns)]),
+            "asgi": asgi.Hosts(*[(p, aapps[owners[i]]) for i, p in enumerate(patterns)]), "hit": hit, "owners": owners}
 
 
 def run_hosts(ctx, patterns, host, apps=None):
@@ -226,16 +243,19 @@ def run_hosts(ctx, patterns, host, apps=None):
             res = drivers.run_asgi(apps["asgi"], drivers.to_scope(drivers.Req(headers=headers)))
             status, exc = res.status, res.exc
         ctx.mon("host-selection")
+        owners = apps["owners"]
         case = {"patterns": patterns, "host": host, "iface": iface}
+        if owners != list(range(len(patterns))):
+            case["owners"] = owners
         if exc is not None:
             ctx.violation(f"hosts|exception|{type(exc).__name__}", case, repr(exc))
             continue
         value = host or ""
         exp = next((i for i, p in enumerate(patterns) if re.fullmatch(p, value) is not None), None)
-        if hit.get("i") != exp:
+        if hit.get("i") != (owners[exp] if exp is not None else None):
             ctx.violation("hosts|wrong-entry" if exp is not None and "i" in hit else
                           ("hosts|404-although-a-pattern-matches" if exp is not None else "hosts|dispatched-although-no-pattern-matches-whole-host"),
-                          case, f"model {exp}, real {hit.get('i')}")
+                          case, f"model entry {exp} (application {owners[exp] if exp is not None else None}), real application {hit.get('i')}")
         elif exp is None and status != 404:
             ctx.violation(f"hosts|no-entry-but-status-{status}", case, "")
 
@@ -261,7 +281,9 @@ def run(ctx):
         full = t % 40 == 0
         paths = PATHS if full else rng.sample(PATHS, 24)
         ntriv = has_prefix_pair(table) or table_depth(table) >= 2
-        apps = build_mount_apps(table)
+        apps = build_mount_apps(table, shared=t % 5 == 3)  # every fifth table mounts one application object under all its prefixes
+        if t % 5 == 3:
+            ctx.mon("one-application-under-several-entries")
         first = [p for p, _ in table if p]
         for path in paths:
             root = rng.choice(roots + ([first[0]] if first else []))  # also a root path equal to one of the table's own prefixes
@@ -295,12 +317,16 @@ def run(ctx):
     ctx.extra["exhaustive_path_list"] = len(PATHS)
     for t in range(ctx.scale(1500, 40_000)):
         patterns = rng.sample(HOST_PATTERNS, rng.randrange(1, 5))
-        apps = build_host_apps(patterns)  # one Hosts object serves the whole sequence (answers must not depend on earlier requests)
+        owners = None
+        if t % 4 == 1 and len(patterns) >= 2:
+            owners = [rng.randrange(2) for _ in patterns]  # two applications, each listed under several patterns
+            ctx.mon("one-application-under-several-entries")
+        apps = build_host_apps(patterns, owners)  # one Hosts object serves the whole sequence (answers must not depend on earlier requests)
         seq = rng.sample(HOSTS, 6)
         seq += [h.swapcase() for h in seq[:3] if h] + seq[:2]
         for host in seq:
             run_hosts(ctx, patterns, host, apps)
-            ctx.case(("hosts", tuple(patterns), host))
+            ctx.case(("hosts", tuple(patterns), host, tuple(owners or ())))
         if t < 1:
             ctx.sample("host-table", {"patterns": patterns, "host": host})
 
@@ -314,7 +340,8 @@ def replay(ctx, case):
         path = case["path"]
         if isinstance(path, dict):
             path = list(path.values())[0].encode("latin-1")
-        run_mount(ctx, _detuple(case["table"]), case["root"], path)
+        table = _detuple(case["table"])
+        run_mount(ctx, table, case["root"], path, build_mount_apps(table, shared=bool(case.get("shared"))))
     else:
-        run_hosts(ctx, case["patterns"], case["host"])
+        run_hosts(ctx, case["patterns"], case["host"], build_host_apps(case["patterns"], case.get("owners")))
     ctx.case(1)
